@@ -314,6 +314,48 @@ def normalise_alloc(txt):
 
 
 class Facts:
+    def _find_relocated(self):
+        """Fields of a reference-tree struct S that were merged into a nested struct N (new, the type of a field g of S): every field h of N
+        has the type of exactly one reference field f of S that is gone from S (or is g itself, whose type was f's). Then `s.g.h` is the
+        place `s.f` was, and the interpreter presents it as such (symex: _lvalue / _project / aggregates).
+          relocated[N]        = {(g, h): f}
+          relocated_pairs     = {(g, h): f}                         (all N together; for values moved out as a whole)
+          relocated_owner[S]  = {g: {'nested': N, 'map': {h: f}}}"""
+        self.relocated, self.relocated_pairs, self.relocated_owner = {}, {}, {}
+        try:
+            badts = _baseline().get(self.crate, {}).get('adts', {})
+        except Exception:
+            return
+        for sp, a in self.adts.items():
+            b = badts.get(sp)
+            if not b or not a.get('local') or a['kind'] != 'struct' or b['kind'] != 'struct' or len(a['variants']) != 1:
+                continue
+            bfields = dict((n, t) for n, t in b['variants'][0][1])
+            cfields = dict((f['name'], f['ty']) for f in a['variants'][0]['fields'])
+            gone = {n: t for n, t in bfields.items() if n not in cfields}
+            if not gone:
+                continue
+            for g, gty in cfields.items():
+                np_ = strip_generics(gty)
+                n_ = self.adts.get(np_)
+                if not n_ or np_ in badts or not n_.get('local') or n_['kind'] != 'struct' or len(n_['variants']) != 1 or len(n_['variants'][0]['fields']) < 2:
+                    continue
+                m, ok = {}, True
+                for fl in n_['variants'][0]['fields']:
+                    cands = [f for f, t in gone.items() if t == fl['ty']]
+                    if g in bfields and bfields[g] == fl['ty']:
+                        cands.append(g)
+                    cands = sorted(set(cands))
+                    if len(cands) != 1 or cands[0] in m.values():
+                        ok = False
+                        break
+                    m[fl['name']] = cands[0]
+                if ok and set(gone) <= set(m.values()):
+                    self.relocated[np_] = {(g, h): f for h, f in m.items()}
+                    self.relocated_pairs.update(self.relocated[np_])
+                    self.relocated_owner.setdefault(sp, {})[g] = {'nested': np_, 'map': m}
+                    self.rename_log = list(getattr(self, 'rename_log', [])) + ['fields %s of %s were merged into the nested struct %s (field %s): %s' % (sorted(gone), sp, np_, g, m)]
+
     def resolve_flags(self):
         """For every bool field of the reference tree that is a two-variant enum now (names.detect): which variant stands for `true`
         is read off the functions that gave the field a constant on the reference tree (baseline `boolinit`): each of them, analysed with
@@ -457,6 +499,7 @@ class Facts:
                                 self.transparent.add(path_)
         except Exception:
             self.transparent = set()
+        self._find_relocated()
         self.impls = self.j['impls']
         self.statics = self.j['statics']
         self.unsafe_code_lint = self.j['unsafe_code_lint']
